@@ -87,14 +87,17 @@ func c10_runC10(e *Env) {
 		"non-trivial when a spawned thread calls into a module that the main program imported after some earlier thread had finished; distinct by (spawn forms, import forms, op list). " +
 		"J: call-tree scenarios = 1..2 generated function bodies (statement trees to nesting level 3: effects, defer of a builtin effect | of a script function | of a script function that raises, plain nested calls, calls under try(), chains of d helper frames with a body at the bottom — d 1..6, around 16/32/64/128/256/512 +-4, or 7..306 —, a final return or raised error; nothing after a call that raises), " +
 		"each body called DIRECTLY by the main program and started 1..2 times with spawn() | fn.spawn() | go | spawn() by a spawned coordinator that waits, the spawn statement itself 0..90 calls deep, steps shuffled, GOMAXPROCS 1/2/4/16; the per-thread statement lists merged into one random schedule of the model's thread net (C10 callnet); " +
-		"every effect reported with the thread's tag, wait() read under try(); non-trivial when a spawned body executes a defer statement after a chain of >= 16 frames below it was left; distinct by (bodies, executions, GOMAXPROCS)"
+		"every effect reported with the thread's tag, wait() read under try(); non-trivial when a spawned body executes a defer statement after a chain of >= 16 frames below it was left; distinct by (bodies, executions, GOMAXPROCS). " +
+		"K: wide-call scenarios = one spawner (1..5 variables, global or function-local) with 3..10 statements: assignments and call statements of functions with req required parameters and nd parameters with defaults (0..48 parameters, drawn small and around 8/9, 16/17, 32/33), " +
+		"given n arguments (req <= n <= req+nd; a quarter of the go statements: one too few / one too many, the arity error being fatal in every other form), argument expressions as in C, each call statement a direct call or go f() | go o.m() | go pick()() | spawn() | f.spawn() | host object.Spawn, every spawned call held at a gate until the spawner's last statement; " +
+		"each call reports all its parameter values; compared with C10 wide (wideRun) and with arguments-at-the-spawn-site-then-defaults; non-trivial when a spawned call is given more than 8 arguments; distinct by (layout, GOMAXPROCS, variables, forms, statements)"
 	prev := runtime.GOMAXPROCS(0)
 	defer runtime.GOMAXPROCS(prev)
 	parts := []struct {
 		name string
 		run  func(*Env)
 	}{{"chanops", c10ChanOps}, {"closeraces", c10CloseRaces}, {"builtins", c10SpawnBuiltins}, {"spawn", c10Spawn}, {"tree", c10Tree},
-		{"nested", c10Nested}, {"topologies", c10Topologies}, {"loops", c10Loops}, {"mods", c10Mods}, {"calls", c10Calls}} // (new parts last: the earlier parts keep their random streams)
+		{"nested", c10Nested}, {"topologies", c10Topologies}, {"loops", c10Loops}, {"mods", c10Mods}, {"calls", c10Calls}, {"wide", c10Wide}} // (new parts last: the earlier parts keep their random streams)
 	only := os.Getenv("VERIF_C10_ONLY") // development aid: run some parts only (comma separated)
 	for _, p := range parts {
 		if only != "" && !strings.Contains(","+only+",", ","+p.name+",") {
